@@ -150,7 +150,7 @@ PROPS = {
         T_PBT + "oracle = payload identity predicate + metamorphic style-twin relation",
         [job("main", "^TestC17$", q=4, th=16)]),
     "C18": P("Success never yields the empty action", "exploration",
-        "cases = exhaustive configuration matrix: every leaf kind/style, flow-as-node, batch nodes (9 prep forms x n in 0..3 x c in 0..2 x with/without post x builder/*BatchNode) x post in {empty, default, custom} x {run directly, routed step of a flow whose default edge leads to a sentinel}: 5004 configurations (incl. exec path {succeeds, succeeds on retry, fallback recovers} and batches run under an already-cancelled context); every case is non-trivial by construction (distinct configuration)",
+        "cases = exhaustive configuration matrix: every leaf kind/style, flow-as-node, batch nodes (9 prep forms x n in 0..3 x c in 0..2 x with/without post x builder/*BatchNode) x post in {empty, default, custom, whitespace-only} x {run directly, routed step of a flow whose default edge leads to a sentinel} (post actions also whitespace-only; incl. exec path {succeeds, succeeds on retry, fallback recovers} and batches run under an already-cancelled context); every case is non-trivial by construction (distinct configuration)",
         "oracle: err==nil => action non-empty and == default when post returned empty; in a flow the default-connected sentinel runs when post returned empty or default (what a custom action selects is C01/C03/C10's)",
         "exhaustive enumeration of the quantified configuration space",
         "trusted: harness node constructors",
